@@ -80,6 +80,27 @@ def build(run):
                                      lambda seeds, vc: GateauxLayer(seeds, vc), dom=tri, tmo=tmo, tag=tag)
                 run.add(tag, thunk, kind="values")
 
+    # ---- the same local rules with COMPLEX field values (the variation parameter tau stays real): the derivative of the R-linear but not
+    # C-linear operators (conj, real, imag, the conjugating products) must act on the variation the same way
+    from ufv.semv import complex_world
+    CPLX = ("Conj", "Real", "Imag", "Sum", "Product", "Division", "Inner", "Dot", "Outer", "Indexed", "IndexSum", "ComponentTensor", "ListTensor", "Power")
+    for t in templates():
+        if t.name in ("Power[0.5]", "Power[a,b]"):      # complex non-integer powers have no denotation in the spec (branch cuts)
+            continue
+        if not any(t.name == c_ or t.name.startswith(c_ + "[") for c_ in CPLX) or issubclass(t.cls, (C.CompoundTensorOperator, C.CompoundDerivative)):
+            continue
+        k = len(t.specs)
+        for V in [(), (2,)]:
+            for kinds in itertools.product(("opq", "zero"), repeat=k):
+                if kinds.count("opq") == 0 or (k > 2 and kinds.count("zero") not in (0, k)):
+                    continue
+                tag = f"generic-complex/{t.name}/V={V}/" + ",".join(kinds)
+
+                def thunk(t=t, V=V, kinds=kinds, tag=tag):
+                    return rule_case(lambda: GenericDerivativeRuleset(var_shape=V), t, kinds, V,
+                                     lambda seeds, vc: GateauxLayer(seeds, vc), dom=tri, tmo=tmo, tag=tag, mkworld=complex_world())
+                run.add(tag, thunk, kind="values")
+
     # ---- Gateaux terminal rules and the whole pipeline on a corpus
     cell = tri.ufl_cell()
     S = ufl.FunctionSpace(tri, E.LagrangeElement(cell, 2))
